@@ -41,6 +41,9 @@ func (e *histEngine) step(r *rng, k int) MalType {
 		case 6:
 			return call1("subvec", vc(1, 2, 3, 4, 5), 0, 2)
 		default:
+			if r.chance(1, 2) {
+				return vc(vc(1, 2), vc(3, 4))
+			}
 			return vc(vc(1, 2), vc(3))
 		}
 	}
@@ -92,7 +95,16 @@ func (e *histEngine) step(r *rng, k int) MalType {
 	case 20:
 		return call1("quasiquote", vc(call1("splice-unquote", prev()), call1("unquote", lit())))
 	case 21:
-		return call1("update", prev(), r.intn(2), ls(sy("fn"), vc(sy("x")), call1("conj", prev(), lit())))
+		switch r.intn(4) {
+		case 0:
+			return call1("update", prev(), r.intn(2), ls(sy("fn"), vc(sy("x")), call1("conj", prev(), lit())))
+		case 1: // nested paths: every level of the source must stay as it was
+			return call1("update-in", prev(), vc(r.intn(2), r.intn(2)), ls(sy("fn"), vc(sy("x")), lit()))
+		case 2:
+			return call1("assoc-in", prev(), vc(r.intn(2), r.intn(2)), lit())
+		default:
+			return call1("update-in", prev(), vc(kw("b"), r.intn(2)), ls(sy("fn"), vc(sy("x")), lit()))
+		}
 	default:
 		return call1("first", call1("list", prev(), prev()))
 	}
